@@ -6,6 +6,15 @@ NOTE = ("Trusted base: the Go toolchain, the VerifDump/verifPoint hooks (read-on
         "and the reference model written in /verif/harness/mon from the property statement. Verdict covers only the executions produced.")
 
 P = {
+ "C03": dict(tech="runtime monitor: list model with capacity, checked after every op of exhaustive short and random sawtooth histories; raw slice length read through VerifDump",
+             text="Exploration: all histories of length <=3 / <=4 over 13 growth/shrink symbols for k in 1..3 plus 20k / 1M random sawtooth histories (k in 1..6, and no/zero/negative capacity argument); "
+                  "Len<=k, Cap/Avail/IsFull arithmetic, raw length and kept-earliest content compared with the model after every op.", ref="2 C03"),
+ "C15": dict(tech="runtime monitor: exhaustive product of source/destination shapes with recursive VerifDump before/after diff",
+             text="Exploration, exhaustive over the stated finite product (29k cases: lengths 0..6 x 0..6, capacity none/1..8, LIFO/FIFO, nil elements, 11 destination forms); "
+                  "success implies dst0++src, capacity shortage and inert destinations imply false and an unchanged destination, the source never changes.", ref="2 C15"),
+ "C19": dict(tech="runtime monitor: exhaustive nil/non-nil patterns against the filter-non-nil oracle, result-shape classifier with per-pattern pinned known outcomes",
+             text="Exploration: all patterns of length <=10 / <=12 x 3 scan limits x 4 index-option sets, random long patterns and random nested trees; every wrong result is classified by shape. "
+                  "The truncation defect (finding defrag:truncation) is recorded, everything else is a violation.", ref="2 C19"),
  "C01": dict(tech="runtime monitor: sequential list model checked after every operation of exhaustive short and random long histories",
              text="Exploration: every mutator history of length <=3 (quick) / <=4 (thorough) over a 14-symbol alphabet plus 20k / 2M random 40-op histories, "
                   "each on a random configuration; after every single op all content observers and return values are compared with an executable list model. "
